@@ -9,10 +9,8 @@ package main
 import (
 	"fmt"
 	"go/ast"
-	"go/constant"
 	"go/token"
 	"go/types"
-	"math"
 	"sort"
 	"strings"
 
@@ -487,346 +485,4 @@ type stage struct {
 	side string // source | dest
 	op   string
 	pos  token.Pos
-}
-
-func c08mirror(c *Ctx) {
-	p := c.P.Pkg("proj")
-	info := p.TypesInfo
-	nt := c.P.Method("proj", "SR", "NewTransform")
-	fd := c.P.Decl(nt)
-	if fd == nil {
-		c.Unk("C08.R2", "proj.(*SR).NewTransform", token.NoPos, "API anchor does not resolve")
-		return
-	}
-	dest := paramVars(info, fd.Type)[0]
-	lits := funcLits(fd.Body)
-	if len(lits) == 0 {
-		c.Unk("C08.R2", "proj.(*SR).NewTransform", fd.Pos(), "no transformer closure")
-		return
-	}
-	lit := lits[0]
-	srT := c.P.NamedType("proj", "SR")
-	// side environment: which *SR variable stands for which side.  At the top level the
-	// destination is NewTransform's parameter and every other *SR variable is the source side;
-	// inside helper functions the parameters inherit the side of the arguments they are called with.
-	type senv struct {
-		side   map[types.Object]string
-		member map[types.Object][2]string
-		top    bool
-	}
-	top := &senv{side: map[types.Object]string{dest: "dest"}, member: map[types.Object][2]string{}, top: true}
-	var sideIn func(env *senv, e ast.Expr) string
-	sideIn = func(env *senv, e ast.Expr) string {
-		o := objOf(info, e)
-		if o == nil || named(o.Type()) != srT {
-			return ""
-		}
-		if s, ok := env.side[o]; ok {
-			return s
-		}
-		if env.top {
-			return "source"
-		}
-		return ""
-	}
-	sideOf := func(e ast.Expr) string { return sideIn(top, e) }
-	var stages []stage
-	seqNo := token.Pos(1)
-	users := map[types.Object][]string{}
-	firstPos := map[types.Object]token.Pos{}
-	sourceRefs := map[types.Object]bool{} // distinct top-level variables used as the source reference
-	member := top.member
-	// the members of Transformers() may be obtained inside the closure or once in NewTransform itself
-	recordMembers := func(env *senv, body ast.Node) {
-		ast.Inspect(body, func(n ast.Node) bool {
-			if x, ok := n.(*ast.AssignStmt); ok && len(x.Rhs) == 1 && len(x.Lhs) == 3 {
-				if call, ok := unparen(x.Rhs[0]).(*ast.CallExpr); ok {
-					if f := callee(info, call); f != nil && f.Name() == "Transformers" {
-						if sel, ok := unparen(call.Fun).(*ast.SelectorExpr); ok {
-							sd := sideIn(env, sel.X)
-							for i, role := range []string{"forward", "inverse"} {
-								if o := objOf(info, x.Lhs[i]); o != nil && o.Name() != "_" {
-									env.member[o] = [2]string{sd, role}
-								}
-							}
-						}
-					}
-				}
-			}
-			return true
-		})
-	}
-	recordMembers(top, fd.Body)
-	var walk func(env *senv, body ast.Node, depth int)
-	walk = func(env *senv, body ast.Node, depth int) {
-		if depth > 4 {
-			return
-		}
-		recordMembers(env, body)
-		ast.Inspect(body, func(n ast.Node) bool {
-			switch x := n.(type) {
-			case *ast.SelectorExpr:
-				if sideIn(env, x.X) == "source" {
-					o := objOf(info, x.X)
-					// resolve a helper's parameter back to the top-level variable it stands for
-					root := o
-					if r, ok := env.side[o]; ok && r == "source" {
-						if ro, ok := env.member[o]; ok {
-							_ = ro
-						}
-					}
-					users[root] = append(users[root], x.Sel.Name)
-					if _, ok := firstPos[root]; !ok {
-						firstPos[root] = x.Pos()
-					}
-				}
-			case *ast.AssignStmt:
-				// point[k] op= X.F   /  point[k] *= const
-				if len(x.Lhs) == 1 && len(x.Rhs) == 1 {
-					if _, isIdx := unparen(x.Lhs[0]).(*ast.IndexExpr); isIdx {
-						if sel, ok := unparen(x.Rhs[0]).(*ast.SelectorExpr); ok && sideIn(env, sel.X) != "" {
-							stages = append(stages, stage{sel.Sel.Name, sideIn(env, sel.X), x.Tok.String(), seqNo})
-							seqNo++
-						} else if v := constOf(info, x.Rhs[0]); v != nil && x.Tok == token.MUL_ASSIGN {
-							f, _ := constFloat(v)
-							// side from the enclosing `if X.Name == longlat`
-							sd := ""
-							for _, anc := range enclosing(body, x) {
-								if is, ok := anc.(*ast.IfStmt); ok {
-									if b, ok := unparen(is.Cond).(*ast.BinaryExpr); ok && (b.Op == token.EQL || b.Op == token.NEQ) {
-										if s2, ok := unparen(b.X).(*ast.SelectorExpr); ok && sideIn(env, s2.X) != "" {
-											inBody := containsNode(is.Body, x)
-											if (b.Op == token.EQL && inBody) || (b.Op == token.NEQ && !inBody && is.Else != nil && containsNode(is.Else, x)) {
-												sd = sideIn(env, s2.X)
-											}
-										}
-									}
-								}
-							}
-							stages = append(stages, stage{"angle", sd, fmt.Sprintf("%.17g", f), seqNo})
-							seqNo++
-						}
-					}
-				}
-			case *ast.CallExpr:
-				f := callee(info, x)
-				if f != nil && c.P.Decl(f) != nil && len(x.Args) == 3 {
-					// adjust_axis(X, denorm, point)
-					if sd := sideIn(env, x.Args[0]); sd != "" {
-						if v := constOf(info, x.Args[1]); v != nil && v.Kind() == constant.Bool {
-							stages = append(stages, stage{"axis", sd, v.String(), seqNo})
-							seqNo++
-							return true
-						}
-					}
-				}
-				if f != nil && c.P.Decl(f) != nil && len(x.Args) == 5 {
-					stages = append(stages, stage{"datum", "", "", seqNo})
-					seqNo++
-					return true
-				}
-				if o := objOf(info, x.Fun); o != nil {
-					if mm, ok := env.member[o]; ok {
-						stages = append(stages, stage{"transformer", mm[0], mm[1], seqNo})
-						seqNo++
-						return true
-					}
-				}
-				// a helper of the package that receives a reference (or a projection member): look inside
-				if f != nil && c.P.Decl(f) != nil && c.P.DeclPkg(f) == p && f.Name() != "NewTransform" && f.Name() != "Transformers" {
-					sig := f.Type().(*types.Signature)
-					if sig.Recv() == nil || true {
-						cfd := c.P.Decl(f)
-						ps := paramVars(info, cfd.Type)
-						sub := &senv{side: map[types.Object]string{}, member: map[types.Object][2]string{}}
-						relevant := false
-						for i, arg := range x.Args {
-							if i >= len(ps) || ps[i] == nil {
-								continue
-							}
-							if sd := sideIn(env, arg); sd != "" {
-								sub.side[ps[i]] = sd
-								relevant = true
-								if sd == "source" {
-									if o := objOf(info, arg); o != nil {
-										sourceRefs[o] = true
-									}
-								}
-							}
-							if o := objOf(info, arg); o != nil {
-								if mm, ok := env.member[o]; ok {
-									sub.member[ps[i]] = mm
-									relevant = true
-								}
-							}
-						}
-						if relevant {
-							walk(sub, cfd.Body, depth+1)
-							return true
-						}
-					}
-				}
-			}
-			return true
-		})
-	}
-	// skip the WGS84 hop and its test, which legitimately name the original reference
-	walk(top, lit.Body, 0)
-	_ = sideOf
-	_ = member
-	_ = sourceRefs
-	sort.Slice(stages, func(i, j int) bool { return stages[i].pos < stages[j].pos })
-	// one reference per side: every source-side stage of the closure reads its parameters from
-	// the same *SR variable (the reference the coordinates are currently expressed in)
-	{
-		users := map[types.Object][]string{}
-		var firstPos = map[types.Object]token.Pos{}
-		var skip []ast.Node
-		ast.Inspect(lit.Body, func(n ast.Node) bool {
-			if call, ok := n.(*ast.CallExpr); ok {
-				if f := callee(info, call); f != nil && c.P.Decl(f) != nil {
-					sig := f.Type().(*types.Signature)
-					// the WGS84 hop and its test legitimately name the original reference
-					if f.Name() == "NewTransform" || (sig.Results().Len() == 1 && sig.Params().Len() == 2 && named(sig.Params().At(0).Type()) == srT && named(sig.Params().At(1).Type()) == srT) {
-						skip = append(skip, call)
-					}
-				}
-			}
-			return true
-		})
-		ast.Inspect(lit.Body, func(n ast.Node) bool {
-			for _, sk := range skip {
-				if n == sk {
-					return false
-				}
-			}
-			if call, ok := n.(*ast.CallExpr); ok {
-				if f := callee(info, call); f != nil && c.P.Decl(f) != nil && c.P.DeclPkg(f) == p {
-					for _, arg := range call.Args {
-						if sideOf(arg) == "source" {
-							o := objOf(info, arg)
-							users[o] = append(users[o], "→"+f.Name())
-							if _, ok := firstPos[o]; !ok {
-								firstPos[o] = arg.Pos()
-							}
-						}
-					}
-				}
-				return true
-			}
-			sel, ok := n.(*ast.SelectorExpr)
-			if !ok {
-				return true
-			}
-			if sideOf(sel.X) == "source" {
-				o := objOf(info, sel.X)
-				users[o] = append(users[o], sel.Sel.Name)
-				if _, ok := firstPos[o]; !ok {
-					firstPos[o] = sel.Pos()
-				}
-			}
-			return true
-		})
-		var objs []types.Object
-		for o := range users {
-			objs = append(objs, o)
-		}
-		sort.Slice(objs, func(i, j int) bool { return firstPos[objs[i]] < firstPos[objs[j]] })
-		switch len(objs) {
-		case 1:
-			c.OK("C08.R2", "proj.(*SR).NewTransform#source-reference", lit.Pos(), "every source-side stage reads `%s` (%d uses)", objs[0].Name(), len(users[objs[0]]))
-		case 0:
-			c.Unk("C08.R2", "proj.(*SR).NewTransform#source-reference", lit.Pos(), "no source-side parameter reads found in the closure")
-		default:
-			var parts []string
-			for _, o := range objs {
-				parts = append(parts, fmt.Sprintf("`%s` (declared at %s) for %v", o.Name(), c.P.Position(o.Pos()), users[o]))
-			}
-			c.Bad("C08.R2", "proj.(*SR).NewTransform#source-reference", firstPos[objs[1]], "the source-side stages take their parameters from different references: %s; after the hop through WGS84 the coordinates are WGS84 coordinates, so a stage that still reads the original reference applies that reference's parameter a second time", strings.Join(parts, "; "))
-		}
-	}
-	find := func(what, side string) []stage {
-		var out []stage
-		for _, s := range stages {
-			if s.what == what && s.side == side {
-				out = append(out, s)
-			}
-		}
-		return out
-	}
-	report := func(cons string, ok bool, pos token.Pos, good, bad string) {
-		if ok {
-			c.OK("C08.R2", "proj.(*SR).NewTransform#"+cons, pos, "%s", good)
-		} else {
-			c.Bad("C08.R2", "proj.(*SR).NewTransform#"+cons, pos, "%s", bad)
-		}
-	}
-	allOp := func(ss []stage, op string, n int) bool {
-		if len(ss) != n {
-			return false
-		}
-		for _, s := range ss {
-			if s.op != op {
-				return false
-			}
-		}
-		return true
-	}
-	// units
-	sm, dm := find("ToMeter", "source"), find("ToMeter", "dest")
-	report("units", allOp(sm, "*=", 2) && allOp(dm, "/=", 2), lit.Pos(), "source coordinates × ToMeter, destination coordinates ÷ ToMeter",
-		fmt.Sprintf("linear units are not mirrored: source %v, destination %v (want two `*=` on the source side and two `/=` on the destination side): A→B followed by B→A does not return the original coordinates when a unit is not the metre", opsOf(sm), opsOf(dm)))
-	// prime meridian
-	sg, dg := find("FromGreenwich", "source"), find("FromGreenwich", "dest")
-	report("prime-meridian", allOp(sg, "+=", 1) && allOp(dg, "-=", 1), lit.Pos(), "source longitude + FromGreenwich, destination longitude − FromGreenwich",
-		fmt.Sprintf("prime-meridian offsets are not mirrored: source %v, destination %v (want one `+=` and one `-=`)", opsOf(sg), opsOf(dg)))
-	// angle
-	sa, da := find("angle", "source"), find("angle", "dest")
-	okAngle := len(sa) == 2 && len(da) == 2
-	if okAngle {
-		var fs, fdv float64
-		fmt.Sscan(sa[0].op, &fs)
-		fmt.Sscan(da[0].op, &fdv)
-		okAngle = sa[0].op == sa[1].op && da[0].op == da[1].op && math.Abs(fs*fdv-1) < 1e-15 && math.Abs(fs-math.Pi/180) < 1e-17
-	}
-	report("angle-units", okAngle, lit.Pos(), "geographic source × deg2rad, geographic destination × r2d, product 1",
-		fmt.Sprintf("degree/radian scaling of geographic systems is not mirrored: source factors %v, destination factors %v", opsOf(sa), opsOf(da)))
-	// transformer members
-	st, dt := find("transformer", "source"), find("transformer", "dest")
-	report("members", allOp(st, "inverse", 1) && allOp(dt, "forward", 1), lit.Pos(), "source → inverse projection, destination → forward projection",
-		fmt.Sprintf("the source must be un-projected with its inverse and the destination projected with its forward function: source calls %v, destination calls %v", opsOf(st), opsOf(dt)))
-	// axis
-	sx, dx := find("axis", "source"), find("axis", "dest")
-	report("axis", allOp(sx, "false", 1) && allOp(dx, "true", 1), lit.Pos(), "adjust_axis(source, false) … adjust_axis(dest, true)",
-		fmt.Sprintf("axis normalisation is not mirrored: source denorm=%v, destination denorm=%v", opsOf(sx), opsOf(dx)))
-	// order: axis(s) < unit(s) < inverse < pm(s) < datum < pm(d) < forward < unit(d) < axis(d)
-	pos := func(ss []stage) token.Pos {
-		if len(ss) == 0 {
-			return token.NoPos
-		}
-		return ss[0].pos
-	}
-	var datum []stage
-	for _, s := range stages {
-		if s.what == "datum" {
-			datum = append(datum, s)
-		}
-	}
-	seq := []token.Pos{pos(sx), pos(sm), pos(st), pos(sg), pos(datum), pos(dg), pos(dt), pos(dm), pos(dx)}
-	okOrder := true
-	for i := 1; i < len(seq); i++ {
-		if seq[i-1] == token.NoPos || seq[i] == token.NoPos || seq[i-1] >= seq[i] {
-			okOrder = false
-		}
-	}
-	report("order", okOrder, lit.Pos(), "axis → unit → inverse → prime meridian → datum shift → prime meridian → forward → unit → axis",
-		"the stages of the pipeline are not in mirrored order around the datum shift")
-}
-
-func opsOf(ss []stage) []string {
-	var out []string
-	for _, s := range ss {
-		out = append(out, s.op)
-	}
-	return out
 }
